@@ -374,11 +374,9 @@ def ev_bed12(col, case, tmp):
     r = col.guarded(rd, "bed12_read:int-list" + tag, case)
     if r is None:
         return
-    d, gs, gb, gc = r
-    ok = True
+    _, gs, gb, gc = r
     for name, g, e in (("block_sizes", gs, sizes), ("block_starts", gb, starts)):
         if g != e:
-            ok = False
             flat_same = [v for r_ in g for v in r_] == [v for r_ in e for v in r_]
             sub = "rows-shifted(row-lengths-wrong)" if flat_same else ("row-count" if len(g) != len(e) else "wrong-elements")
             col.fail("bed12_read:int-list%s:%s" % (tag, sub), case, "%s got %r expected %r" % (name, g[:5], e[:5]))
